@@ -34,8 +34,7 @@ AUDITED = {
     "ekore.anomalous_dimensions.unpolarized.space_like.as3.gamma_nsv": "removable singularity at N = 1: the guard selects the analytic limit",
     "ekore.anomalous_dimensions.unpolarized.time_like.as3.gamma_nsv": "removable singularity at N = 1: the guard selects the analytic limit",
 }
-NONANALYTIC_FUNCS = {"np.conj", "np.conjugate", "np.real", "np.imag", "np.abs", "np.absolute", "abs", "np.angle", "np.fabs", "numpy.conj", "numpy.real",
-                     "numpy.imag", "numpy.abs"}
+NONANALYTIC_FUNCS = {"numpy.conj", "numpy.conjugate", "numpy.real", "numpy.imag", "numpy.abs", "numpy.absolute", "abs", "numpy.angle", "numpy.fabs"}
 NONANALYTIC_ATTRS = {"real", "imag", "conjugate", "conj"}
 SEEDS = {"n", "N", "cache"}
 
@@ -124,6 +123,7 @@ def run(chk):
             # (2) non-analytic operations
             if isinstance(n, ast.Call):
                 d = src.dotted(n.func) or ""
+                d = src.resolve_name(f.module, d) or d          # through the module's import table: `np.conj` is numpy.conj under any alias
                 if d in NONANALYTIC_FUNCS and any(mentions(a, t) for a in n.args):
                     counts["nonanalytic"] += 1
                     if audited:
@@ -141,7 +141,7 @@ def run(chk):
             # (3) branches
             if isinstance(n, (ast.If, ast.While, ast.IfExp)) and mentions(n.test, t):
                 txt = ast.unparse(n.test)
-                memo = all(isinstance(c, ast.Call) and (src.dotted(c.func) or "") in ("np.isnan", "numpy.isnan")
+                memo = all(isinstance(c, ast.Call) and src.resolve_name(f.module, src.dotted(c.func) or "") == "numpy.isnan"
                            for c in ([n.test.operand] if isinstance(n.test, ast.UnaryOp) and isinstance(n.test.op, ast.Not) else [n.test]))
                 index_only = not any(isinstance(x, ast.Name) and x.id in t and x.id not in ("cache",) for x in ast.walk(n.test)) and "len(cache)" in txt
                 counts["branch"] += 1
@@ -180,8 +180,9 @@ def parity_rule(chk, src, tn, scope=("ekore.", "eko."), rule="parity-flag-is-def
     fget = src.func("ekore.harmonics.cache.get")
     parity_keys = set()
     for n in ast.walk(fget.node):
-        if isinstance(n, ast.If) and isinstance(n.test, ast.Compare) and ast.unparse(n.test.left) == "key":
-            key = ast.unparse(n.test.comparators[0])
+        if isinstance(n, ast.If) and isinstance(n.test, ast.Compare) and len(n.test.ops) == 1 and isinstance(n.test.ops[0], ast.Eq) \
+                and "key" in (ast.unparse(n.test.left), ast.unparse(n.test.comparators[0])):
+            key = ast.unparse(n.test.comparators[0] if ast.unparse(n.test.left) == "key" else n.test.left)
             if any(isinstance(x, ast.Name) and x.id == "is_singlet" for st in n.body for x in ast.walk(st)):
                 parity_keys.add(key)
     chk.floor("parity-dependent keys", len(parity_keys), 8)
